@@ -1,4 +1,349 @@
 import PyaModel.Proofs.C10
+/-!
+# Props/C10 — diagnostics are deterministic and independent of prior checks
+
+Property theorems only. Models: `Core/Cache.lean` (A: set-iteration sites as functions of the
+iteration order; B: memo tables and the protocol check with recursion guard and positive cache).
+Spec: `Spec/CacheSpec.lean` (`OrderFree`, `answerFresh`, `sem`, exception classes `D10_*`).
+
+A site is *order free* when its output is the same for any two iteration orders of the same set
+(`o₁.Perm o₂`). For the sites where the code lets the order through, the full statement is kept as a
+`def … : Prop`, refuted on a concrete input, and proved under the negation of the site's exception
+class. The history part does the same for the statement "the answer after any history equals the
+answer of a fresh checker".
+-/
 namespace Pya.C10
-theorem placeholder_c10 : True := trivial
+
+/-! ## A. Order -/
+
+/-- **Scan obligation.** Every place of the anchored files where the AST scan of the live tree finds
+a set being iterated, joined, popped or handed to a function has a row in `modelledSites` (and so
+one of the site functions below). A new set-iteration site breaks this theorem. -/
+theorem sites_registered : sitesRegistered Gen.scannedSites = true := sites_registered_proof
+
+/-- `any(p(x) for x in S)`, `all(…)`, `for x in S: if p(x): return True` — full. -/
+theorem anyAll_order_free {α : Type} (p : α → Bool) :
+    OrderFree (siteAny p) ∧ OrderFree (siteAll p) :=
+  ⟨fun _ _ h => any_perm p h, fun _ _ h => all_perm p h⟩
+
+/-- A set built from the iteration (`{f(x) for x in S if p(x)}`, `result |= …`) is the same set — full
+(in the set reading). -/
+theorem setBuild_order_free {α β : Type} (p : α → Bool) (f : α → β) :
+    OrderFreeAsSet (siteSetBuild p f) := by
+  intro o₁ o₂ h y
+  exact ((h.filter p).map f).mem_iff
+
+/-- A dict built by a comprehension over a set answers every lookup alike — full. -/
+theorem lookupMap_order_free {κ ν : Type} [BEq κ] [LawfulBEq κ] (f : κ → ν) (k : κ) :
+    OrderFree (fun order => siteLookupMap f order k) := by
+  intro o₁ o₂ h
+  simp only [siteLookupMap, lookup_map_self, h.mem_iff]
+
+/-- `if len(S) == 1: next(iter(S))` — full. -/
+theorem singleton_order_free {α : Type} (d : α) : OrderFree (siteSingleton d) := by
+  intro o₁ o₂ h
+  match o₁, o₂, h.length_eq with
+  | [], [], _ => rfl
+  | [a], [b], _ =>
+    have := h.mem_iff (a := a)
+    simp at this
+    simp [siteSingleton, this]
+  | _ :: _ :: _, _ :: _ :: _, _ => rfl
+  | [], _ :: _, hl => simp at hl
+  | [_], [], hl => simp at hl
+  | [_], _ :: _ :: _, hl => simp at hl
+  | _ :: _ :: _, [], hl => simp at hl
+  | _ :: _ :: _, [_], hl => simp at hl
+
+/-- `sorted(S)` — full. -/
+theorem sortedJoin_order_free : OrderFree siteSortedJoin := fun _ _ h => isort_perm h
+
+/-- `for x in S: show_error(…)`: the same set of failures is emitted (they are rendered sorted by
+position) — full in the set reading. -/
+theorem emit_order_free {α φ : Type} (emit : α → Option φ) : OrderFreeAsSet (siteEmit emit) := by
+  intro o₁ o₂ h y
+  exact (h.filterMap emit).mem_iff
+
+/-- **Worklist closure** (`_get_recursive_typeshed_bases`, `_resolve_origin`): once the worklist is
+empty, the result is the union of `succ x` over everything reachable from the start, whichever
+element `pop()` took at each step — full (set reading; for any two pop schedules that finish). -/
+theorem closure_order_free (succ : Nat → List Nat) (start : Nat) (c₁ c₂ : List Nat)
+    (h₁ : (closureRun succ start c₁).2.1 = []) (h₂ : (closureRun succ start c₂).2.1 = []) (y : Nat) :
+    y ∈ (closureRun succ start c₁).2.2 ↔ y ∈ (closureRun succ start c₂).2.2 := by
+  rw [closure_result succ start c₁ h₁ y, closure_result succ start c₂ h₂ y]
+
+/-! ### Sites that let the order through -/
+
+/-- Full statement for the text-producing sites (false, see the witnesses). -/
+def join_sites_order_free : Prop :=
+  OrderFree siteExtraKwargs ∧ (∀ nl, OrderFree (fun o => siteKeysLeft o nl)) ∧
+  (∀ base, OrderFree (siteProtocolStr base true)) ∧ OrderFree siteDisallowedKinds
+
+/-- `Got unexpected keyword arguments 'a', 'b'` vs `'b', 'a'` (class joinExtraKwargs). -/
+theorem extraKwargs_depends : siteExtraKwargs ["a", "b"] ≠ siteExtraKwargs ["b", "a"] := by decide
+
+/-- `No value specified for keys a, b` vs `b, a` (class joinKeysLeft). -/
+theorem keysLeft_depends : siteKeysLeft ["a", "b"] false ≠ siteKeysLeft ["b", "a"] false := by decide
+
+/-- `P (Protocol with members 'a', 'b')` vs `'b', 'a'` (class protocolMembersOrder). -/
+theorem protocolStr_depends : siteProtocolStr "P" true ["a", "b"] ≠ siteProtocolStr "P" true ["b", "a"] := by
+  decide
+
+theorem join_sites_order_free_false : ¬ join_sites_order_free := by
+  intro h
+  exact extraKwargs_depends (h.1 ["a", "b"] ["b", "a"] (List.Perm.swap _ _ _))
+
+/-- **Partial**: outside the class "the set has two or more elements" all four text sites are
+order free. -/
+theorem join_sites_partial (elems o₁ o₂ : List String) (hd : D10_twoOrMore elems = false)
+    (h₁ : o₁.Perm elems) (h₂ : o₂.Perm elems) (nl : Bool) (base : String) :
+    siteExtraKwargs o₁ = siteExtraKwargs o₂ ∧ siteKeysLeft o₁ nl = siteKeysLeft o₂ nl ∧
+    siteProtocolStr base true o₁ = siteProtocolStr base true o₂ ∧
+    siteDisallowedKinds o₁ = siteDisallowedKinds o₂ := by
+  rw [orders_eq_of_small elems o₁ o₂ hd h₁ h₂]
+  exact ⟨rfl, rfl, rfl, rfl⟩
+
+/-- `_is_compatible_with_protocol`: *whether* an error is returned does not depend on the order —
+full for the verdict. -/
+theorem protocolFirstFail_verdict_order_free (other : String) (outcome : String → MemberOutcome) :
+    OrderFree (fun o => (siteProtocolFirstFail other outcome o).isSome) := by
+  intro o₁ o₂ h
+  simp only [siteProtocolFirstFail, findSome?_isSome_eq_any]
+  exact any_perm _ h
+
+/-- Full statement for the error text (false). -/
+def protocolFirstFail_order_free : Prop :=
+  ∀ other outcome, OrderFree (siteProtocolFirstFail other outcome)
+
+/-- Which member the error names depends on the order (class protocolMembersOrder). -/
+theorem protocolFirstFail_depends :
+    siteProtocolFirstFail "A" (fun _ => .missing) ["a", "b"] ≠
+    siteProtocolFirstFail "A" (fun _ => .missing) ["b", "a"] := by decide
+
+theorem protocolFirstFail_order_free_false : ¬ protocolFirstFail_order_free :=
+  fun h => protocolFirstFail_depends (h "A" (fun _ => .missing) _ _ (List.Perm.swap _ _ _))
+
+/-- **Partial**: when at most one member fails, the error text is order free. -/
+theorem protocolFirstFail_partial (other : String) (outcome : String → MemberOutcome)
+    (elems o₁ o₂ : List String) (hd : D10_twoFailing outcome elems = false)
+    (h₁ : o₁.Perm elems) (h₂ : o₂.Perm elems) :
+    siteProtocolFirstFail other outcome o₁ = siteProtocolFirstFail other outcome o₂ := by
+  unfold siteProtocolFirstFail
+  apply findSome?_perm_of_le_one _ elems o₁ o₂ _ h₁ h₂
+  have hl : (elems.filter fun m => outcome m != .ok).length ≤ 1 := by
+    simp [D10_twoFailing] at hd; omega
+  have heq : (elems.filter fun x => (failText other x (outcome x)).isSome) =
+      elems.filter fun m => outcome m != .ok := by
+    apply List.filter_congr
+    intro x _
+    cases outcome x <;> rfl
+  rw [heq]; exact hl
+
+/-- `for base in other.artificial_bases`: whether some base succeeds is order free — full for the
+verdict; the chosen result is order free when at most one base succeeds — **partial**. -/
+theorem firstSuccess_verdict_order_free {α β : Type} (attempt : α → Option β) :
+    OrderFree (fun o => (siteFirstSuccess attempt o).isSome) := by
+  intro o₁ o₂ h
+  simp only [siteFirstSuccess, findSome?_isSome_eq_any]
+  exact any_perm _ h
+
+theorem firstSuccess_partial {α β : Type} (attempt : α → Option β) (elems o₁ o₂ : List α)
+    (hd : D10_twoSucceed attempt elems = false) (h₁ : o₁.Perm elems) (h₂ : o₂.Perm elems) :
+    siteFirstSuccess attempt o₁ = siteFirstSuccess attempt o₂ := by
+  unfold siteFirstSuccess
+  apply findSome?_perm_of_le_one _ elems o₁ o₂ _ h₁ h₂
+  simp [D10_twoSucceed] at hd; omega
+
+/-- Two bases that both succeed with different results (class artificialBaseChoice). -/
+theorem firstSuccess_depends :
+    siteFirstSuccess (fun b : Nat => some b) [1, 2] ≠ siteFirstSuccess (fun b : Nat => some b) [2, 1] := by
+  decide
+
+/-- `isinstance(x, A) or isinstance(x, B)`: the narrowed union has the same *members* whatever
+order `list(set(constraints))` produced — full in the set reading (this is also
+`MultiValuedValue.__eq__`). -/
+theorem orNarrow_order_free_as_set (sub : Nat → Nat → Bool) (vals : List Member) :
+    OrderFreeAsSet (siteOrNarrow sub vals) := by
+  intro o₁ o₂ h y
+  simp only [siteOrNarrow, mem_dedup, List.mem_flatMap]
+  constructor
+  · rintro ⟨v, hv, c, hc, hy⟩; exact ⟨v, hv, c, h.mem_iff.mp hc, hy⟩
+  · rintro ⟨v, hv, c, hc, hy⟩; exact ⟨v, hv, c, h.mem_iff.mpr hc, hy⟩
+
+/-- Full statement for the member *order* (false). -/
+def orNarrow_order_free : Prop := ∀ sub vals, OrderFree (siteOrNarrow sub vals)
+
+/-- `x: Any`, tests `[1, 2]` vs `[2, 1]`: the union is printed `1 | 2` vs `2 | 1`
+(class orConstraintOrder). -/
+theorem orNarrow_depends :
+    siteOrNarrow (fun a b => a == b) [.any] [1, 2] ≠ siteOrNarrow (fun a b => a == b) [.any] [2, 1] := by
+  decide
+
+theorem orNarrow_order_free_false : ¬ orNarrow_order_free :=
+  fun h => orNarrow_depends (h _ _ _ _ (List.Perm.swap _ _ _))
+
+/-- **Partial**: with fewer than two constraints the member order is fixed. -/
+theorem orNarrow_partial (sub : Nat → Nat → Bool) (vals : List Member) (elems o₁ o₂ : List Nat)
+    (hd : D10_twoConstraints elems = false) (h₁ : o₁.Perm elems) (h₂ : o₂.Perm elems) :
+    siteOrNarrow sub vals o₁ = siteOrNarrow sub vals o₂ := by
+  have : D10_twoOrMore elems = false := hd
+  rw [orders_eq_of_small elems o₁ o₂ this h₁ h₂]
+
+/-- Definition nodes iterated in set order (`suppressing_subscope`, `_get_value_from_nodes`): same
+members — full in the set reading. -/
+theorem defNodes_order_free_as_set (pre : List Nat) (keep : Nat → Bool) :
+    OrderFreeAsSet (siteTryDefNodes pre) ∧ OrderFreeAsSet (siteDefNodes keep) := by
+  constructor
+  · intro o₁ o₂ h y
+    simp only [siteTryDefNodes, mem_dedup, List.mem_append, h.mem_iff]
+  · intro o₁ o₂ h y
+    simp only [siteDefNodes, mem_dedup, List.mem_filter, List.mem_flatMap, id]
+    constructor
+    · rintro ⟨⟨l, hl, hy⟩, hk⟩; exact ⟨⟨l, h.mem_iff.mp hl, hy⟩, hk⟩
+    · rintro ⟨⟨l, hl, hy⟩, hk⟩; exact ⟨⟨l, h.mem_iff.mpr hl, hy⟩, hk⟩
+
+/-- Full statement for the member order (false). -/
+def defNodes_order_free : Prop :=
+  (∀ pre, OrderFree (siteTryDefNodes pre)) ∧ (∀ keep, OrderFree (siteDefNodes keep))
+
+/-- After `try: x = 1; x = 2` the union is `0 | 1 | 2` or `0 | 2 | 1` (class tryDefNodeOrder). -/
+theorem tryDefNodes_depends : siteTryDefNodes [0] [1, 2] ≠ siteTryDefNodes [0] [2, 1] := by decide
+
+/-- A narrowed variable with two definitions: `1 | 2` or `2 | 1` (class defNodeSetOrder). -/
+theorem defNodes_depends :
+    siteDefNodes (fun _ => true) [[1], [2]] ≠ siteDefNodes (fun _ => true) [[2], [1]] := by decide
+
+theorem defNodes_order_free_false : ¬ defNodes_order_free :=
+  fun h => tryDefNodes_depends (h.1 _ _ _ (List.Perm.swap _ _ _))
+
+/-- **Partial**: fewer than two nodes in the set. -/
+theorem defNodes_partial (pre : List Nat) (keep : Nat → Bool) :
+    (∀ elems o₁ o₂ : List Nat, D10_twoOrMore elems = false → o₁.Perm elems → o₂.Perm elems →
+      siteTryDefNodes pre o₁ = siteTryDefNodes pre o₂) ∧
+    (∀ elems o₁ o₂ : List (List Nat), D10_twoOrMore elems = false → o₁.Perm elems → o₂.Perm elems →
+      siteDefNodes keep o₁ = siteDefNodes keep o₂) :=
+  ⟨fun elems o₁ o₂ hd h₁ h₂ => by rw [orders_eq_of_small elems o₁ o₂ hd h₁ h₂],
+   fun elems o₁ o₂ hd h₁ h₂ => by rw [orders_eq_of_small elems o₁ o₂ hd h₁ h₂]⟩
+
+/-- `intersect_bounds_maps`: the alternatives of the `OrBound` come in set order
+(class orBoundOrder); **partial**: fewer than two alternatives. -/
+theorem orBound_depends : siteOrBound [[1], [2]] ≠ siteOrBound [[2], [1]] := by decide
+
+theorem orBound_partial (elems o₁ o₂ : List (List Nat)) (hd : D10_twoOrMore elems = false)
+    (h₁ : o₁.Perm elems) (h₂ : o₂.Perm elems) : siteOrBound o₁ = siteOrBound o₂ := by
+  rw [orders_eq_of_small elems o₁ o₂ hd h₁ h₂]
+
+/-! Non-vacuity of the partial theorems' hypotheses. -/
+example : D10_twoOrMore ["zeta"] = false ∧ ["zeta"].Perm ["zeta"] := ⟨by decide, List.Perm.refl _⟩
+example : D10_twoFailing (fun m => if m == "b" then .conflict else .ok) ["a", "b", "c"] = false := by decide
+example : siteProtocolFirstFail "A" (fun m => if m == "b" then .conflict else .ok) ["c", "b", "a"]
+    = some "Value of protocol member 'b' conflicts" := by decide
+example : D10_twoSucceed (fun b : Nat => if b == 2 then some b else none) [1, 2, 3] = false := by decide
+example : D10_twoConstraints [7] = false := by decide
+
+/-! ## B. History -/
+
+/-- **Memo tables are transparent.** For a table whose entries are results of the computation
+(`MemoInv`) and a computation determined by the cache key (`KeyDetermines`): a memoised lookup
+returns what the uncached function returns, and the table stays valid. Covers
+`Checker.make_type_object`, `ArgSpecCache._cached_get_argspec`, `_get_generic_bases_cached`,
+`get_type_alias` — full, any table, any query. -/
+theorem memo_transparent {Q κ ν : Type} [BEq κ] [LawfulBEq κ] (key : Q → κ) (hashable : κ → Bool)
+    (f fallback : Q → Option ν) (hk : KeyDetermines key f) (tbl : List (κ × ν))
+    (hi : MemoInv key f tbl) (q : Q) :
+    (memoStep key hashable f fallback tbl q).1 = memoSpec key hashable f fallback q ∧
+    MemoInv key f (memoStep key hashable f fallback tbl q).2.1 :=
+  memoStep_spec key hashable f fallback hk tbl hi q
+
+/-- **…after any history**: the answer to `q` after any sequence of earlier lookups, starting from
+the empty table, equals the answer from the empty table — by induction over the history. -/
+theorem memo_history_independent {Q κ ν : Type} [BEq κ] [LawfulBEq κ] (key : Q → κ)
+    (hashable : κ → Bool) (f fallback : Q → Option ν) (hk : KeyDetermines key f) (h : List Q) (q : Q) :
+    (memoStep key hashable f fallback (memoRun key hashable f fallback [] h) q).1 =
+    (memoStep key hashable f fallback [] q).1 := by
+  have h0 : MemoInv key f ([] : List (κ × ν)) := by intro q v hl; simp at hl
+  rw [(memoStep_spec key hashable f fallback hk _ (memoRun_inv key hashable f fallback hk h [] h0) q).1,
+      (memoStep_spec key hashable f fallback hk [] h0 q).1]
+
+/-- The hypothesis `KeyDetermines` is needed: a table keyed by less than the computation reads
+(`known_argspecs` is keyed by the object, the computation also reads `is_asynq`) replays the
+answer of the first variant. -/
+theorem memo_key_must_determine :
+    (memoStep (Q := Nat × Bool) (fun q => q.1) (fun _ => true) (fun q => some q.2) (fun _ => none)
+      (memoRun (fun q => q.1) (fun _ => true) (fun q => some q.2) (fun _ => none) [] [(0, true)]) (0, false)).1
+    ≠ (memoStep (Q := Nat × Bool) (fun q => q.1) (fun _ => true) (fun q => some q.2) (fun _ => none)
+      [] (0, false)).1 := by decide
+
+/-- Full statement for the protocol check: every answer equals the answer of a fresh checker
+(false: three independent exception classes). -/
+def cached_answer_valid : Prop :=
+  ∀ (W : World) (fuel : Nat) (h : List Query) (q : Query), answerAfter W fuel h q = answerFresh W fuel q
+
+/-- World of the first witness: `Hashable`-like protocol 0 whose only member is Any-typed on value 0. -/
+def wMode : World := ⟨[((0, 0, 0), [[.anyOk]])], []⟩
+
+/-- **cacheIgnoresMode**: accepted in normal mode, cached, replayed under `set_exclude_any` where a
+fresh checker rejects. History `[normal 0←0]`, query `exclude-any 0←0`. -/
+theorem cache_ignores_mode_witness :
+    answerAfter wMode 3 [⟨false, 0, 0, 0⟩] ⟨true, 0, 0, 0⟩ = true ∧
+    answerFresh wMode 3 ⟨true, 0, 0, 0⟩ = false := by decide
+
+/-- World of the second witness: P1 ← A needs (P2 ← B) and then something false; P2 ← B needs
+P1 ← A. -/
+def wGuard : World := ⟨[((1, 0, 1), [[.sub 2 0 2, .const false]]), ((2, 0, 2), [[.sub 1 0 1]])], []⟩
+
+/-- **cacheUnderFailedAssumption**: while checking P1 ← A, the nested P2 ← B succeeds under the
+assumption "P1 ← A" and is cached; P1 ← A then fails. A fresh checker rejects P2 ← B, the warmed
+one accepts it. (The cached pair is not in the greatest fixed point: `gfpCompat` is empty.) -/
+theorem cache_under_failed_assumption_witness :
+    answerAfter wGuard 5 [⟨false, 1, 0, 1⟩] ⟨false, 2, 0, 2⟩ = true ∧
+    answerFresh wGuard 5 ⟨false, 2, 0, 2⟩ = false ∧ gfpCompat wGuard false = [] := by decide
+
+/-- World of the third witness: `SupportsAbs[int] ← int` holds, `SupportsAbs[str] ← int` does not. -/
+def wArgs : World := ⟨[((0, 0, 0), [[.const true]]), ((0, 1, 0), [[.const false]])], []⟩
+
+/-- **protoCacheKey**: the cache lives on the protocol *class*: the positive answer for variant 0 of
+its generic arguments is replayed for variant 1. -/
+theorem proto_cache_key_witness :
+    answerAfter wArgs 3 [⟨false, 0, 0, 0⟩] ⟨false, 0, 1, 0⟩ = true ∧
+    answerFresh wArgs 3 ⟨false, 0, 1, 0⟩ = false := by decide
+
+theorem cached_answer_valid_false : ¬ cached_answer_valid := by
+  intro h
+  have := h wMode 3 [⟨false, 0, 0, 0⟩] ⟨true, 0, 0, 0⟩
+  rw [cache_ignores_mode_witness.1, cache_ignores_mode_witness.2] at this
+  cases this
+
+/-- **History independence of the protocol check, partial.** Outside the three classes — the
+world's nested checks are well-founded w.r.t. `rk` (`¬ D10_cyclic`), only variant 0 of every
+protocol's generic arguments occurs (`¬ D10_selfArgs`), history and query use one mode
+(`¬ D10_modeMix`) — and with fuel above the rank of every query, for *every* history the answer is
+the structural one, hence the answer of a fresh checker. Proved by induction on the fuel with
+nested inductions over members and slots (`check_spec`) and induction over the history. -/
+theorem proto_history_independent_partial (W : World) (rk : Rank) (fuel : Nat) (h : List Query)
+    (q : Query) (h1 : D10_cyclic W rk = false) (h2 : D10_selfArgs W h q = false)
+    (h3 : D10_modeMix h q = false) (h4 : fuelOK W rk fuel (q :: h) = true) :
+    answerAfter W fuel h q = answerFresh W fuel q ∧
+    answerFresh W fuel q = sem W q.ex fuel q.p q.a q.v := by
+  have ha := answerAfter_eq_sem W rk fuel h q h1 h2 h3 h4
+  have hf := answerAfter_eq_sem W rk fuel [] q h1
+    (by simp only [D10_selfArgs, List.any_cons, Bool.or_eq_false_iff] at h2 ⊢
+        exact ⟨⟨h2.1.1, by simp⟩, h2.2⟩)
+    (by simp [D10_modeMix])
+    (by simp only [fuelOK, List.all_cons, Bool.and_eq_true] at h4 ⊢; exact ⟨h4.1, by simp⟩)
+  exact ⟨by rw [ha]; exact hf.symm, hf⟩
+
+/-! Non-vacuity: a world with a nested protocol and an Any-typed member satisfies the hypotheses;
+both answers occur. -/
+def wOk : World :=
+  ⟨[((0, 0, 0), [[.sub 1 0 1], [.const true]]), ((1, 0, 1), [[.const true]]), ((1, 0, 0), [[.const false]]),
+    ((0, 0, 1), [[.sub 1 0 0]])], []⟩
+def rkOk : Rank := rankOf [((0, 0), 1), ((0, 1), 1), ((1, 0), 0), ((1, 1), 0)]
+example : D10_cyclic wOk rkOk = false := by decide
+example : D10_selfArgs wOk [⟨false, 0, 0, 1⟩, ⟨false, 1, 0, 1⟩] ⟨false, 0, 0, 0⟩ = false := by decide
+example : D10_modeMix [⟨false, 0, 0, 1⟩, ⟨false, 1, 0, 1⟩] ⟨false, 0, 0, 0⟩ = false := by decide
+example : fuelOK wOk rkOk 3 [⟨false, 0, 0, 0⟩, ⟨false, 0, 0, 1⟩, ⟨false, 1, 0, 1⟩] = true := by decide
+example : answerAfter wOk 3 [⟨false, 0, 0, 1⟩, ⟨false, 1, 0, 1⟩] ⟨false, 0, 0, 0⟩ = true := by decide
+example : answerFresh wOk 3 ⟨false, 0, 0, 1⟩ = false := by decide
+
 end Pya.C10
